@@ -14,10 +14,14 @@ NIDS = 3
 
 
 def id_sel(inp, name):
-    t = S.bv(NIDS, 128)
-    for i in range(NIDS - 1, 0, -1):
-        t = S.Ite(inp.var('%s.is%d' % (name, i), S.B), S.bv(i, 128), t)
-    return EnumV(S.bv(0, 64), {0: (t,)}), t
+    """one of the ids Uuid(1), Uuid(2), Ulid(1): two id formats, and two DIFFERENT ids that share their 128-bit value.
+    Returns (OrderId value, label in 1..3 used by the reference model as the id's identity)"""
+    b1 = inp.var('%s.is1' % name, S.B)
+    b2 = inp.var('%s.is2' % name, S.B)
+    label = S.Ite(b1, S.bv(1, 128), S.Ite(b2, S.bv(2, 128), S.bv(3, 128)))
+    is_ulid = S.And(S.Not(b1), S.Not(b2))
+    val = S.Ite(S.And(S.Not(b1), b2), S.bv(2, 128), S.bv(1, 128))
+    return EnumV(S.Ite(is_ulid, S.bv(1, 64), S.bv(0, 64)), {0: (val,), 1: (val,)}), label
 
 
 def history(depth):
@@ -96,7 +100,7 @@ def history(depth):
         new = []
         for (lv, it, ov), f, h_ in zip(spec, first, hit):
             if pp is not UNDEF:
-                took = S.And(is_[1], popped_some, veq(OrderView(L, pp[0]).id, EnumV(S.bv(0, 64), {0: (it,)})))
+                took = S.And(is_[1], popped_some, veq(OrderView(L, pp[0]).id, OrderView(L, ov).id))
             else:
                 took = S.FALSE
             new.append((S.And(lv, S.Not(took), S.Not(S.And(is_[3], h_))), it, ov))
